@@ -288,6 +288,7 @@ type instantiator struct {
 	boundMap    map[boundParam]int
 	instances   []*instance
 	instanceMap *container.IntSliceMap[*instance] // [nonterm, boundParam #1, ...] ->
+	sets        map[*TokenSet]*TokenSet           // original -> copy, within one top-level set
 }
 
 func (i *instantiator) resolveInstance(context *instance, nonterm int, args []Arg) *instance {
@@ -323,6 +324,10 @@ func (i *instantiator) allocate(key []int) *instance {
 }
 
 func (i *instantiator) doSet(set *TokenSet) *TokenSet {
+	if done, ok := i.sets[set]; ok {
+		// Named sets can refer to themselves or to each other.
+		return done
+	}
 	switch set.Kind {
 	case Any, First, Last, Precede, Follow:
 		if nt := set.Symbol - len(i.m.Terminals); nt >= 0 {
@@ -334,12 +339,14 @@ func (i *instantiator) doSet(set *TokenSet) *TokenSet {
 		}
 		return set
 	}
-	ret := *set
+	ret := new(TokenSet)
+	*ret = *set
+	i.sets[set] = ret // registered before descending to terminate on recursive sets
 	ret.Sub = make([]*TokenSet, 0, len(set.Sub))
 	for _, sub := range set.Sub {
 		ret.Sub = append(ret.Sub, i.doSet(sub))
 	}
-	return &ret
+	return ret
 }
 
 func (i *instantiator) check(context *instance, p *Predicate) bool {
@@ -464,6 +471,8 @@ func Instantiate(m *Model) error {
 		})
 	}
 	for _, set := range m.Sets {
+		// Every top-level set gets its own copy of the sets it refers to.
+		inst.sets = make(map[*TokenSet]*TokenSet)
 		out.Sets = append(out.Sets, inst.doSet(set))
 	}
 
